@@ -639,12 +639,12 @@ func ruleOPT14(c *Ctx) {
 			c.AnchorLost("pkg." + n)
 			continue
 		}
-		// every use of a parameter is as the argument of GetValueElem in the entry block
+		// every use of a raw parameter is as the argument of GetValueElem (so nothing else ever sees the wrapped operand)
 		bad := ""
 		for _, prm := range fn.Params {
 			for _, r := range *prm.Referrers() {
 				call, ok := r.(*ssa.Call)
-				if ok && matchStatic(gve)(call) && call.Block() == fn.Blocks[0] {
+				if ok && matchStatic(gve)(call) {
 					continue
 				}
 				if _, isDbg := r.(*ssa.DebugRef); isDbg {
@@ -656,7 +656,7 @@ func ruleOPT14(c *Ctx) {
 				bad = "parameter " + prm.Name() + " is unused"
 			}
 		}
-		c.Check(bad == "", n+" / operands unwrapped first", p.Pos(fn.Pos()), "every operand passes through GetValueElem in the entry block", bad+": a pointer or interface operand would be dispatched on Ptr/Interface kind instead of its element's")
+		c.Check(bad == "", n+" / operands unwrapped first", p.Pos(fn.Pos()), "the raw operands are used by GetValueElem only", bad+": a pointer or interface operand would be dispatched on Ptr/Interface kind instead of its element's")
 	}
 	// GetValueElem recurses (or loops) while the kind is Ptr or Interface
 	kinds := map[int64]bool{}
